@@ -182,6 +182,22 @@ func genC10(seed uint64, part string) *Scenario {
 		sc.Clients = append(sc.Clients, ops)
 		return sc
 	}
+	if r.Chance(1, 5) {
+		// concurrent assignments (SetCurrent / EwmaSetCurrent) on a bar without completion
+		// trigger: the final value must be one that somebody assigned, consistent with the reads
+		sc.Bars = []BarSpec{simpleBar(int64(r.Pick(0, -1)))}
+		sc.Bars[0].Filler = "nop"
+		sc.Bars[0].Finish = "settotal"
+		sc.Bars[0].App = []DecSpec{{Kind: "ewma"}}
+		for c := 0; c < r.Range(2, 5); c++ {
+			var ops []Op
+			for i := 0; i < r.Range(3, 8); i++ {
+				ops = append(ops, Op{K: r.PickS("ewmasetcur", "ewmasetcur", "setcur"), B: 0, N: int64(1000*(c+1) + i)}, Op{K: "cur", B: 0})
+			}
+			sc.Clients = append(sc.Clients, ops)
+		}
+		return sc
+	}
 	nc := r.Range(2, 6)
 	for c := 0; c < nc; c++ {
 		var ops []Op
@@ -283,6 +299,9 @@ func raceify(sc *Scenario, r *common.Rng) *Scenario {
 		if r.Chance(1, 3) {
 			sc.Bars[i].Pre = append(sc.Bars[i].Pre, DecSpec{Kind: "elapsed"})
 		}
+		if r.Chance(1, 2) {
+			sc.Bars[i].App = append(sc.Bars[i].App, DecSpec{Kind: r.PickS("avgeta", "avgspeed")})
+		}
 	}
 	for ci := range sc.Clients {
 		var ops []Op
@@ -308,7 +327,7 @@ func raceify(sc *Scenario, r *common.Rng) *Scenario {
 			}
 			for k := 0; k < r.Range(6, 30); k++ {
 				bi := r.Intn(n)
-				ops = append(ops, Op{K: r.PickS("get", "get", "compl", "cur", "abrt", "barwait", "setprio", "traverse", "proxyread"), B: bi, N: int64(r.Intn(8))})
+				ops = append(ops, Op{K: r.PickS("get", "get", "compl", "cur", "abrt", "barwait", "setprio", "traverse", "proxyread", "avgadjust", "avgadjust"), B: bi, N: int64(r.Intn(8))})
 				if r.Chance(1, 3) {
 					ops = append(ops, Op{K: "sleep", N: int64(r.Pick(20, 100, 500))})
 				}
